@@ -2015,6 +2015,25 @@ impl Server {
     }
 
     pub fn notify_proxys(&mut self, request: WorkerRequest) {
+        // Whether a RemoveListener names a listener this worker was told about:
+        // must be read before the state dispatch below forgets it.
+        let removes_known_listener = match &request.content.request_type {
+            Some(RequestType::RemoveListener(remove)) => {
+                let address: std::net::SocketAddr = remove.address.into();
+                match ListenerType::try_from(remove.proxy) {
+                    Ok(ListenerType::Http) => {
+                        self.config_state.http_listeners.contains_key(&address)
+                    }
+                    Ok(ListenerType::Https) => {
+                        self.config_state.https_listeners.contains_key(&address)
+                    }
+                    Ok(ListenerType::Tcp) => self.config_state.tcp_listeners.contains_key(&address),
+                    Ok(ListenerType::Udp) => self.config_state.udp_listeners.contains_key(&address),
+                    Err(_) => false,
+                }
+            }
+            _ => false,
+        };
         if let Err(e) = self.config_state.dispatch(&request.content) {
             error!("Could not execute order on config state: {}", e);
         }
@@ -2136,13 +2155,17 @@ impl Server {
             }
             Some(RequestType::RemoveListener(ref remove)) => {
                 debug!("{} remove {:?} listener {:?}", req_id, remove.proxy, remove);
-                // We only remove a listener that was previously added, so the
-                // base count is at least 1 — the subtraction cannot underflow.
-                debug_assert!(
-                    self.base_sessions_count > 0,
-                    "removing a listener with base_sessions_count == 0 would underflow"
-                );
-                self.base_sessions_count -= 1;
+                // Only a listener that was previously added took a slot in the
+                // base count. A RemoveListener for an address that has none
+                // (never added, or removed already) must leave it alone:
+                // SoftStop's exit test compares the slab against this count.
+                if removes_known_listener {
+                    debug_assert!(
+                        self.base_sessions_count > 0,
+                        "removing a listener with base_sessions_count == 0 would underflow"
+                    );
+                    self.base_sessions_count = self.base_sessions_count.saturating_sub(1);
+                }
                 let response = match ListenerType::try_from(remove.proxy) {
                     Ok(ListenerType::Http) => self.http.borrow_mut().notify(request),
                     Ok(ListenerType::Https) => self.https.borrow_mut().notify(request),
